@@ -415,6 +415,7 @@ def worker_like_ctx(prop, ctx, seed, batch):
     else:
         w['dt_focus'] = set(bdec.sample('dt-focus', dt_groups, 3)) | {('en-us', 0)}
     w['p_heavy'] = 0.25
+    w['no_restart'] = bdec.choice('long-uptime', 2) == 0
     return w
 
 
@@ -495,7 +496,7 @@ def run_check(prop, tier, seed, workers, batches=None, runs=None, do_minimise=Tr
         orch.cleanup(scratch)
 
 
-SUM_KEYS = ('runs', 'ops', 'steps', 'switches', 'barrier_hits', 'dirty_hits', 'sweeps', 'lock_switches', 'double_ctor', 'capped', 'clock_reads_in_explicit_calls',
+SUM_KEYS = ('runs', 'ops', 'steps', 'switches', 'barrier_hits', 'dirty_hits', 'sweeps', 'bursts', 'lock_switches', 'long_uptime_batch', 'double_ctor', 'capped', 'clock_reads_in_explicit_calls',
             'cold_runs', 'restarts', 'faulted_ops', 'checked_ops', 'swallowed_abort')
 DICT_KEYS = ('faults', 'known', 'sites', 'barrier_sites', 'ctor', 'placements', 'threads', 'sched_kinds', 'culture_classes',
              'get_outcomes')
@@ -550,7 +551,7 @@ def write_ev(prop, tier, seed, agg, wall, nviol, jobs):
                    'write_barrier_classes_interposed': agg['barrier_classes'],
                    'constructions_per_key': agg['ctor'], 'runs_with_double_construction': agg['double_ctor'],
                    'clock_reads_during_explicit_reference_calls': agg['clock_reads_in_explicit_calls'],
-                   'cold_start_runs': agg['cold_runs'], 'fault_sweep_runs': agg['sweeps'], 'restarts': agg['restarts'], 'step_capped_runs': agg['capped'],
+                   'cold_start_runs': agg['cold_runs'], 'fault_sweep_runs': agg['sweeps'], 'burst_runs': agg['bursts'], 'long_uptime_batches': agg['long_uptime_batch'], 'restarts': agg['restarts'], 'step_capped_runs': agg['capped'],
                    'swallowed_faults': agg['swallowed_abort'], 'thread_placements': agg['placements'],
                    'clients_per_run': agg['threads'], 'scheduler_kinds': agg['sched_kinds'],
                    'golden_disagreements': agg.get('golden_disagreements', 0),
